@@ -33,7 +33,18 @@ RULE = ("cases: (merge) every row over the adversarial alphabet fed to _merge_co
         "backslash and at least two distinct tuples whose naive (unescaped) join coincides or share a column value")
 EXHAUSTIVE = {"quick": True, "thorough": True}
 
-ALPHA = ["", ",", "\\", "a", "a,", ",a", "\\,", "1", "1.0", "a\\", "\\\\", ",,"]
+def _sys_alpha():
+    import itertools as it
+    base = ["a", ",", "\\"]
+    out = [""]
+    for k in (1, 2, 3):
+        out += ["".join(t) for t in it.product(base, repeat=k)]
+    return out + ["1", "1.0", "2.50", "2.5", "v1.0", "v1", " a", "a "]
+
+
+# every string of length <= 3 over {a, separator, escape} plus numeric / whitespace look-alikes
+ALPHA = _sys_alpha()
+ALPHA_SMALL = ["", ",", "\\", "a", "a,", ",a", "\\,", "1", "1.0", "a\\", "\\\\", ",,", "\\,\\", ",\\"]
 # tuples whose unescaped joins collide pairwise: the adversarial core of every random table
 COLLIDE_SETS = [[("a,", "a"), ("a", ",a")], [(",", ""), ("", ",")], [("\\", ","), ("\\,", "")],
                 [(",,", ""), (",", ","), ("", ",,")], [("a\\", ",a"), ("a", "\\,a")], [("1", ",1"), ("1,", "1")],
@@ -71,7 +82,7 @@ def cases(tier, seed):
     # exhaustive 2-column stream (one table), sampled / exhaustive 3-column stream
     t2 = [list(p) for p in itertools.product(ALPHA, repeat=2)]
     out.append({"kind": "merge", "rows": t2})
-    t3 = [list(p) for p in itertools.product(ALPHA, repeat=3)]
+    t3 = [list(p) for p in itertools.product(ALPHA_SMALL, repeat=3)]
     if tier == "quick" or extra:
         t3 = Rng(seed, PID, "t3").sample(t3, 400)
     for k in range(0, len(t3), 432):
